@@ -419,6 +419,10 @@ def main():
     run.out_of_scope += ['L>4 levels, blocks >3x3, nnz per level >3', 'from_kvs on real knot vectors (covered via compute_sparsity_ij tables)',
                          'floating-point summation order in matvec']
 
+    # ---- translator validation: transliterated kernels vs compiled kernels on the repo's own test inputs
+    if run.want('validate'):
+        validate_translation(run)
+
     # ---- (1) nonzero patterns
     def vstruct(bs, bidx):
         return ns['MLStructure'](bs, bidx)
@@ -595,6 +599,51 @@ for tup in itertools.product(*[range(len(b)) for b in bz]):
 exp = sorted(p for p in full if p[0] in set(w['row_list']))
 print(json.dumps({'reproduced': got != exp, 'got': got, 'expected': exp}))
 '''
+
+
+VALIDATE = r'''
+import sys, json, numpy as np
+w = json.load(sys.stdin)
+from pyiga import mlmatrix
+out = []
+for bs, bw in w['cases']:
+    S = mlmatrix.MLStructure.multi_banded(tuple(bs), tuple(bw))
+    fn = {2: mlmatrix.ml_nonzero_2d, 3: mlmatrix.ml_nonzero_3d}.get(len(bs), mlmatrix.ml_nonzero_nd)
+    for lower in (False, True):
+        out.append([fn(S.bidx, S._bs_arr, lower_tri=lower).tolist(), mlmatrix.ml_nonzero_nd(S.bidx, S._bs_arr, lower_tri=lower).tolist()])
+    rng = np.random.RandomState(1)
+    if len(bs) in (2, 3):
+        X = rng.rand(*[len(b) for b in S.bidx]); x = rng.rand(S.shape[1]); y = np.zeros(S.shape[0])
+        getattr(mlmatrix, 'ml_matvec_%dd' % len(bs))(X, S.bidx, S._bs_arr, x, y)
+        out.append(y.tolist())
+print(json.dumps(out))
+'''
+
+
+def validate_translation(run):
+    import pyiga.mlmatrix as real_py   # python-level helpers only (multi_banded); kernels come from the transliteration
+    cases = [[[5, 5], [2, 2]], [[4, 3, 3], [2, 1, 1]], [[3, 3, 2, 2], [1, 1, 1, 1]], [[9, 12], [2, 3]]]
+    real = realbuild.run_real(VALIDATE, {'cases': cases})
+    k = load_pyx('pyiga/mlmatrix_cy.pyx')
+    mine = []
+    for bs, bw in cases:
+        S = real_py.MLStructure.multi_banded(tuple(bs), tuple(bw))
+        fn = {2: k['ml_nonzero_2d'], 3: k['ml_nonzero_3d']}.get(len(bs), k['ml_nonzero_nd'])
+        for lower in (False, True):
+            mine.append([np.asarray(fn(S.bidx, S._bs_arr, lower)).tolist(), np.asarray(k['ml_nonzero_nd'](S.bidx, S._bs_arr, lower)).tolist()])
+        rng = np.random.RandomState(1)
+        if len(bs) in (2, 3):
+            X = rng.rand(*[len(b) for b in S.bidx]); x = rng.rand(S.shape[1]); y = np.zeros(S.shape[0])
+            k['ml_matvec_%dd' % len(bs)](X, S.bidx, S._bs_arr, x, y)
+            mine.append(y.tolist())
+    mism = 0
+    for a, b in zip(real, mine):
+        if not np.allclose(np.asarray(a, dtype=float), np.asarray(b, dtype=float)):
+            mism += 1
+    run.translator_validation['cases'] += len(real)
+    run.translator_validation['mismatches'] += mism
+    if mism:
+        run.inconclusive_msg('translator validation: %d of %d concrete cases differ between transliterated and compiled kernels' % (mism, len(real)))
 
 
 def replay_file(path):
